@@ -35,6 +35,11 @@ type World struct {
 	// digest assignment for root maps created through this world
 	DigTable   map[int][4]uint64
 	DigDefault func(id int) [4]uint64
+	lastCalls  []CallObs
+	// the roots as observed from the registers at the last successful commit (for Load records)
+	committedRoots     []RootObs
+	commitKnown        bool
+	pendingColdRefresh bool
 }
 
 func NewWorld(T uint32) *World {
@@ -523,4 +528,73 @@ func (w *World) Observe() ([]RootObs, StoreObs) {
 	}
 	sort.Ints(so.Reach)
 	return roots, so
+}
+
+// Reopen abandons the storage object and reopens every root by its root identifier over the ledger.
+func (w *World) Reopen() Res {
+	w.St = newStorage(w.Ledger)
+	res := Res{Class: "ok", Seq: []int{}}
+	for _, name := range w.Roots {
+		h := w.H[name]
+		var id atree.SlabID
+		if h.Kind == "A" {
+			id = h.Arr.SlabID()
+			a, err := atree.NewArrayWithRootID(w.St, id)
+			if err != nil {
+				return resOf(err)
+			}
+			h.Arr = a
+		} else {
+			id = h.Map.SlabID()
+			m, err := atree.NewMapWithRootID(w.St, id, h.Dig)
+			if err != nil {
+				return resOf(err)
+			}
+			h.Map = m
+		}
+	}
+	// every non-root handle is retired (handle-tree rule iv)
+	for name, h := range w.H {
+		if h.Parent != "" {
+			delete(w.H, name)
+		}
+	}
+	return res
+}
+
+// ColdObserve reconstructs every root in a brand-new storage over a copy of the ledger,
+// using nothing but the registers, without touching the live storage.
+func (w *World) ColdObserve() []RootObs {
+	cw := &World{T: w.T, Th: w.Th, Ledger: w.Ledger.Clone(), H: map[string]*Handle{}, canon: w.canon, Addr: w.Addr}
+	cw.St = newStorage(cw.Ledger)
+	for _, name := range w.Roots {
+		h := w.H[name]
+		nh := &Handle{Name: name, Kind: h.Kind, Dig: h.Dig}
+		if h.Kind == "A" {
+			a, err := atree.NewArrayWithRootID(cw.St, h.Arr.SlabID())
+			if err != nil {
+				return []RootObs{{Name: name, Kind: "error:" + classify(err).Class, Abs: []AbsElem{}, Kds: [][]int{}, F: []*Node{}}}
+			}
+			nh.Arr = a
+		} else {
+			m, err := atree.NewMapWithRootID(cw.St, h.Map.SlabID(), h.Dig)
+			if err != nil {
+				return []RootObs{{Name: name, Kind: "error:" + classify(err).Class, Abs: []AbsElem{}, Kds: [][]int{}, F: []*Node{}}}
+			}
+			nh.Map = m
+		}
+		cw.H[name] = nh
+		cw.Roots = append(cw.Roots, name)
+	}
+	roots, _ := cw.Observe()
+	return roots
+}
+
+func (w *World) RegObs() []RegObs {
+	out := []RegObs{}
+	for _, id := range w.Ledger.SortedIDs() {
+		b := w.Ledger.Regs[id]
+		out = append(out, RegObs{Key: id.String(), ID: w.cid(id), Sum: shortSum(b), Len: len(b)})
+	}
+	return out
 }
